@@ -141,6 +141,17 @@ def check(case):
             if width * (nb - 1) < span * 0.9:
                 c0 = native[0] + case['obs'][0] * (span - width * (nb - 1))
                 centres = c0 + width * np.arange(nb)
+                # alternatively constant resolving power: widths grow with wavenumber
+                if case['obs'][1] > 0.4:
+                    c_lo = native[0] + 0.3 * case['obs'][0] * span
+                    q = 1.0 + max(4.0 * spacing / c_lo, 0.05 + 0.9 * (case['obs'][1] - 0.4))
+                    geo = [c_lo]
+                    while len(geo) < 8 and geo[-1] * q <= native[-1]:
+                        geo.append(geo[-1] * q)
+                    if len(geo) >= 3:
+                        centres = np.array(geo)
+                        nb = len(geo)
+                        out.cls('obs:constant-R')
                 out.cls('binning-judged')
                 out.applies('binned-restricted==binned-full')
                 b = FluxBinner(centres.copy())
@@ -151,6 +162,14 @@ def check(case):
                     k = int(np.argmax(np.abs(bb - bf)))
                     out.fail('binned-restricted==binned-full@%s,%s' % (family, tag),
                              'bin %d of %d: %r vs %r (max rel %.2e)' % (k, nb, bb[k], bf[k], maxrel(bb, bf)))
+                # the order in which the requested points are listed is irrelevant
+                out.applies('request-order')
+                rd = cut(out, 'model@observation-descending', m.model, centres[::-1].copy(), True)
+                bd = np.asarray(cut(out, 'bin_model', b.bin_model, rd)[1], dtype=float)
+                if not close(bd, bf, rtol=1e-9 + rslack, atol=aslack):
+                    k = int(np.argmax(np.abs(bd - bf)))
+                    out.fail('request-order@%s' % family, 'descending request: bin %d of %d: %r vs %r (max rel %.2e)'
+                             % (k, nb, bd[k], bf[k], maxrel(bd, bf)))
     except CutError:
         pass
 
